@@ -156,7 +156,7 @@ _RE_DEPTH = re.compile(r"depth of the complete state graph search is (\d+)")
 
 def run_tlc(main, cfg=None, files=None, workers=None, timeout=300, env=None,
             extra=None, deadlock=None, simulate=None, depth_first=False,
-            keep_dir=None, heap=None, coverage=False):
+            keep_dir=None, heap=None, coverage=False, continue_=False):
     """Run TLC on spec module `main` (path relative to /verif/spec, without .tla).
 
     All *.tla / *.cfg files of the module's directory (and of `files`, a list of
@@ -188,6 +188,8 @@ def run_tlc(main, cfg=None, files=None, workers=None, timeout=300, env=None,
         args += ["-simulate", simulate]
     if coverage:
         args += ["-coverage", "1"]
+    if continue_:
+        args += ["-continue"]
     if extra:
         args += list(extra)
     args.append(mod + ".tla")
@@ -227,6 +229,11 @@ def run_tlc(main, cfg=None, files=None, workers=None, timeout=300, env=None,
                 r.error = txt
         else:
             r.error = "TLC exit %d without verdict:\n%s" % (p.returncode, r.out[-2000:])
+    r.violated = re.findall(r"^Error: Invariant (\S+) is violated", r.out, re.M)
+    if continue_ and r.violated and r.ok:
+        # with -continue TLC still ends with "No error has been found"
+        r.ok = False
+        r.violation = "invariants violated (-continue): " + ", ".join(sorted(set(r.violated)))
     if coverage:
         for l in r.out.splitlines():
             m = re.match(r"<(\w+) line .* of module (\w+)>: (\d+):(\d+)", l.strip())
@@ -379,8 +386,12 @@ class Check:
         return 0
 
 
-def run_driver(chk: Check, binary, args, timeout=600, env=None):
-    """Run a Go conformance driver and fold its ndjson report into chk."""
+def run_driver(chk: Check, binary, args, timeout=600, env=None, keep=None, count=True):
+    """Run a Go conformance driver and fold its ndjson report into chk.
+
+    keep: optional predicate on a disagreement record; records it rejects belong
+    to another property's check (drivers shared by a family prefix their keys
+    with the property id) and are only counted in the evidence."""
     e = {"VERIF_SEED": chk.seed, "VERIF_TIER": chk.tier}
     if env:
         e.update(env)
@@ -396,6 +407,10 @@ def run_driver(chk: Check, binary, args, timeout=600, env=None):
             continue
         t = rec.get("t")
         if t == "disagree":
+            if keep is not None and not keep(rec):
+                chk.extra["disagreements_attributed_elsewhere"] = \
+                    chk.extra.get("disagreements_attributed_elsewhere", 0) + 1
+                continue
             chk.disagree(rec["key"], rec.get("desc", ""), rec.get("replay"))
         elif t == "dead":
             raise MachineryError("driver %s dead: %s" % (os.path.basename(binary), rec.get("msg")))
@@ -416,6 +431,8 @@ def run_driver(chk: Check, binary, args, timeout=600, env=None):
     if p.returncode != 0 or summary is None:
         raise MachineryError("driver %s exit %d without summary:\n%s\n%s" % (
             os.path.basename(binary), p.returncode, p.stdout[-1500:], p.stderr[-3000:]))
+    if not count:
+        return summary
     chk.evaluations += summary.get("evaluations", 0)
     for i in range(summary.get("distinct_nontrivial", 0)):
         chk.nontrivial.add("%s#%d" % (os.path.basename(binary) + ":" + " ".join(map(str, args))[:40], i))
@@ -424,3 +441,64 @@ def run_driver(chk: Check, binary, args, timeout=600, env=None):
     for k, v in (summary.get("extra") or {}).items():
         chk.extra[k] = v
     return summary
+
+
+_RE_BEH = re.compile(r'^<<"BEHAVIOUR", (".*")>>\s*$')
+
+
+def tlc_behaviours(main, cfg, num, depth, seed, timeout=300, out_path=None):
+    """Runs TLC in simulation mode on a *Sim module whose invariant prints
+    `<<"BEHAVIOUR", json>>` for every finished behaviour; returns (rows, TlcResult)."""
+    r = run_tlc(main, cfg=cfg, workers=1, timeout=timeout,
+                simulate="num=%d" % num, extra=["-depth", str(depth), "-seed", str(seed)])
+    if r.error or r.violation:
+        raise MachineryError("TLC simulation failed on %s/%s: %s" % (main, cfg, r.error or r.violation))
+    rows = []
+    for l in r.out.splitlines():
+        m = _RE_BEH.match(l)
+        if m:
+            rows.append(json.loads(json.loads(m.group(1))))
+    m = re.search(r"The number of states generated: (\d+)", r.out)
+    if m:
+        r.generated = int(m.group(1))
+        r.distinct = r.distinct or r.generated
+    if out_path:
+        write_ndjson(out_path, rows)
+    return rows, r
+
+
+def run_driver_sharded(chk, binary, mode_args, rows, shards=8, timeout=600, env=None, keep=None):
+    """Splits rows (behaviours/cases) over several driver processes."""
+    import concurrent.futures
+    d = scratch("shards-")
+    shards = max(1, min(shards, len(rows)))
+    paths = []
+    for i in range(shards):
+        p = os.path.join(d, "part%d.ndjson" % i)
+        write_ndjson(p, rows[i::shards])
+        paths.append(p)
+    sub = [Check(chk.pid, chk.tier, chk.seed) for _ in paths]
+    errs = []
+
+    def one(i):
+        try:
+            run_driver(sub[i], binary, list(mode_args) + [paths[i]], timeout=timeout, env=env, keep=keep)
+        except MachineryError as e:
+            errs.append(e)
+
+    with concurrent.futures.ThreadPoolExecutor(max_workers=shards) as ex:
+        list(ex.map(one, range(len(paths))))
+    if errs:
+        raise errs[0]
+    for i, s in enumerate(sub):
+        chk.evaluations += s.evaluations
+        chk.nontrivial |= {"%d/%s" % (i, k) for k in s.nontrivial}
+        chk.violations += s.violations
+        chk.known_hits += s.known_hits
+        for x in s.samples:
+            chk.sample(x)
+        for k, v in s.extra.items():
+            if isinstance(v, (int, float)) and not isinstance(v, bool):
+                chk.extra[k] = chk.extra.get(k, 0) + v
+            else:
+                chk.extra[k] = v
